@@ -7,7 +7,8 @@
 From Coq Require Import List NArith ZArith Arith Bool.
 From Tongo Require Import Lib.Bits Lib.Res Spec.Sha256 Model.BocParse Model.CellHash Spec.ReprHash
   Spec.BocLayout Proofs.CellHashP Proofs.DagP Model.MsgHash Spec.MsgCanon
-  Proofs.MsgHashP Proofs.MsgHashN Proofs.MsgHashD Proofs.MsgHashI Model.MsgHist Proofs.MsgHistP.
+  Proofs.MsgHashP Proofs.MsgHashN Proofs.MsgHashD Proofs.MsgHashI Model.MsgHist Proofs.MsgHistP
+  Model.BocSer Proofs.BocParseP Proofs.BocSerLayoutP2 Proofs.BocSerLayoutP5 Proofs.MsgHashS Model.MsgOracle Proofs.MsgOracleP.
 Import ListNotations.
 
 (** The hash reported for a decoded message is the representation hash of the
@@ -61,6 +62,25 @@ Theorem C16_source_boc_parses_back :
             cached_hash H (p_cells p) k = Ok (tx_hash t).
 Proof. exact source_boc_parses_back. Qed.
 Print Assumptions C16_source_boc_parses_back.
+
+(** ... and for tongo's OWN serialiser: SourceBoc is serializeBoc(c, false, false,
+    false) with the hashes of the decoder's hasher (Model/BocSer.v, proved to
+    emit the C01 layout of the re-ordered cells, C01_serialize.v).  For every
+    cell array the captured cell sits in ([dag_wf], [node_ok]: what the parser
+    returns; fewer than 2^24 cells), if equal hashes mean equal trees among the
+    cells reachable from it ([collision_free], the idealisation of SHA-256 that
+    C01's round trip needs, visible hypothesis): whenever the serialiser returns
+    bytes, they parse to exactly one root whose hash is the reported one. *)
+Theorem C16_source_boc_is_serialiser_output :
+  forall (H : bytes -> bytes) (o : oracle) (c : cell) (t : tx) (cells : list node) (k : nat) (bs : bytes),
+  decode_tx H o c = Ok t ->
+  dag_wf cells -> Forall node_ok cells -> (N.of_nat (length cells) < 2 ^ 24)%N ->
+  nth_error (trees_of 0 cells) k = Some (Ok (tx_src t)) ->
+  collision_free cells (hasher_hashes H cells) [k] ->
+  serialize cells (hasher_hashes H cells) [k] false false false = Ok bs ->
+  exists p r', parse_boc bs = Ok p /\ p_roots p = [r'] /\ cached_hash H (p_cells p) r' = Ok (tx_hash t).
+Proof. exact source_boc_model_parses_back. Qed.
+Print Assumptions C16_source_boc_is_serialiser_output.
 
 (** Hash(true) of an external-in message is the representation hash of the
     canonical re-encoding, a cell defined from (destination, body content) only
@@ -126,6 +146,29 @@ Theorem C16_normalized_injective :
 Proof. exact normalized_injective. Qed.
 Print Assumptions C16_normalized_injective.
 
+(** With ordinary trees as body references ([plain]: no exotic cell, level 0, at
+    most 4 references, all the way down; with pruned branches the claim is false
+    by design, a pruned branch has the hash of the cell it stands for) and a
+    collision-free hash with 32-byte output: equal normalised hashes force equal
+    bodies AS TREES (bits and every reference subtree). *)
+Theorem C16_normalized_injective_trees :
+  forall (H : bytes -> bytes), (forall x y, H x = H y -> x = y) -> (forall x, length (H x) = 32%nat) ->
+  forall d1 d2 (b1 b2 : bits * list cell) h,
+  (length (snd b1) <= 4)%nat -> (length (snd b2) <= 4)%nat ->
+  Forall plain (snd b1) -> Forall plain (snd b2) ->
+  repr_hash H (canonical_cell d1 b1) = Ok h ->
+  repr_hash H (canonical_cell d2 b2) = Ok h ->
+  addr_bits (canon_dest d1) = addr_bits (canon_dest d2) /\ b1 = b2.
+Proof. exact normalized_injective_trees. Qed.
+Print Assumptions C16_normalized_injective_trees.
+
+(** the underlying fact: two ordinary trees with the same level-0 hash are equal *)
+Theorem C16_plain_tree_hash_injective :
+  forall (H : bytes -> bytes), (forall x y, H x = H y -> x = y) -> (forall x, length (H x) = 32%nat) ->
+  forall c1 c2 i j h d1 d2,
+  plain c1 -> plain c2 -> hd_at H c1 i = Ok (h, d1) -> hd_at H c2 j = Ok (h, d2) -> c1 = c2.
+Proof. exact plain_tree_inj. Qed.
+
 (** ... so messages with a different destination encoding, different body bits
     or a different number of body references have different Hash(true). *)
 Theorem C16_normalized_distinguishes :
@@ -163,6 +206,55 @@ Theorem C16_normalized_zero_on_error :
   msg_hash H true m = Ok zero_hash.
 Proof. exact normalized_zero_on_error. Qed.
 
+(** The transcribed decoders (Model/MsgOracle.v): with Hashmap.mapInner (label
+    walk = C05's load_label) for the extra-currency, library and out_msgs
+    dictionaries and TransactionDescr with all its phases written out, and no
+    library resolver configured, the decoders are functions of the cell tree
+    alone: [tongo_decode_message H c], [tongo_decode_tx H c].  All theorems
+    above hold for them (they hold for every oracle); the main ones restated. *)
+Theorem C16_tongo_decoders :
+  forall (H : bytes -> bytes) (c : cell),
+  masks_ok c ->
+  (forall m, tongo_decode_message H c = Ok m ->
+     repr_hash H c = Ok (m_hash m) /\ msg_hash H false m = Ok (m_hash m) /\
+     (bits_ok c -> forall src dest fee h, m_info m = IExtIn src dest fee ->
+        hash_cell H (canonical_cell dest (m_body m)) = Ok h ->
+        msg_hash H true m = Ok h /\ repr_hash H (canonical_cell dest (m_body m)) = Ok h /\
+        body_from c (m_body m) /\ addr_wf dest)) /\
+  (forall t, tongo_decode_tx H c = Ok t ->
+     repr_hash H c = Ok (tx_hash t) /\ tx_src t = c /\
+     (forall m, tx_in_msg t = Some m ->
+        exists c1 r, nth_error (cell_refs c) 0 = Some c1 /\ nth_error (cell_refs c1) 0 = Some r /\
+                     tongo_decode_message H r = Ok m)).
+Proof.
+  intros H c Hm. split.
+  - intros m E. destruct (decoded_hash_is_source H _ c m Hm E) as (A & B). split; [exact A|]. split; [exact B|].
+    intros Hb src dest fee h Ei Hh. exact (decoded_normalized_hash H _ c m src dest fee h Hm Hb E Ei Hh).
+  - intros t E. destruct (decoded_tx_hash_is_source H _ c t Hm E) as (A & B). split; [exact A|]. split; [exact B|].
+    intros m Hi. exact (tx_in_msg_hash_is_source H _ c t m E Hi).
+Qed.
+Print Assumptions C16_tongo_decoders.
+
+(** Library cells.  Without a resolver (tlb.Unmarshal, tlb.NewDecoder(): the
+    decoders above) a library cell in decoder position is an error.  With
+    Decoder.WithLibraryResolver and a library cell as the root, the record is
+    decoded from the cell the resolver returns for the library cell's hash and
+    reports the representation hash of THAT cell; for other roots nothing
+    changes.  (Nested positions: resolved the same way by the code, not
+    transcribed.) *)
+Theorem C16_library_root_resolved :
+  forall (H : bytes -> bytes) (resolve : bytes -> res cell) (o : oracle) (c : cell),
+  (is_library_cell c = false -> decode_message_resolving H resolve o c = decode_message H o c) /\
+  (forall m, is_library_cell c = true -> decode_message_resolving H resolve o c = Ok m ->
+     exists h c', hash_cell H c = Ok h /\ resolve h = Ok c' /\
+                  decode_message_body o (hash_cell H c') c' = Ok m /\
+                  hash_cell H c' = Ok (m_hash m) /\
+                  (masks_ok c' -> repr_hash H c' = Ok (m_hash m))).
+Proof.
+  intros H resolve o c. split; [apply resolving_without_library|].
+  intros m. apply resolving_library_root.
+Qed.
+
 (** Histories on one variable (Model/MsgHist.v): a successful decode overwrites
     everything Hash / Hash(true) / SourceBoc look at.  Whatever the variable held
     before (zero value, another record, a half-written record of a failed
@@ -193,6 +285,25 @@ Proof.
   eapply msg_assign_fresh; exact E.
 Qed.
 
+(** What Hash(normalize) leaves in the receiver (Hash(true) clears the anycast
+    of an addr_std destination through the shared ExtInMsgInfo pointer): the
+    identity hash is never written, both hashes answer the same afterwards; the
+    only change is that anycast, and nothing changes unless the message is
+    external-in with an addr_std destination carrying an anycast. *)
+Theorem C16_hash_calls_do_not_change_hashes :
+  forall (H : bytes -> bytes) (b : bool) (m : msg) (n : bool),
+  m_hash (after_hash b m) = m_hash m /\ msg_hash H n (after_hash b m) = msg_hash H n m.
+Proof. exact after_hash_observables. Qed.
+
+Theorem C16_hash_true_receiver :
+  forall m : msg,
+  after_hash false m = m /\
+  m_info (after_hash true m) = clear_info_anycast (m_info m) /\
+  m_init (after_hash true m) = m_init m /\ m_body (after_hash true m) = m_body m /\
+  m_body_ref (after_hash true m) = m_body_ref m /\
+  ((forall s any wc x f, m_info m <> IExtIn s (AStd (Some any) wc x) f) -> after_hash true m = m).
+Proof. exact after_hash_receiver. Qed.
+
 (** The design in which SourceBoc keeps its answer inside the variable while
     UnmarshalTLB does not clear it (seeded mutant C16-r2m2) is refuted by the
     history decode A, SourceBoc, decode B, SourceBoc: the last answer is A's
@@ -211,7 +322,7 @@ Proof. exact cached_source_design_refuted. Qed.
 (** Non-vacuity: an external-in message (src addr_extern, dest addr_std with
     anycast, import fee 2 bytes, no init, inline body with one reference)
     decodes; its normalised hash exists and differs from its identity hash. *)
-Definition ex_oracle : oracle := mkoracle (fun _ _ => true) (fun _ => true).
+Definition ex_oracle : oracle := real_oracle (hash_cell sha256).
 Definition ex_msg_cell : cell :=
   Cell false 0 0
     ([true; false]
